@@ -28,7 +28,8 @@ STAGE 4, PARTIAL.  What is proved here, for EVERY oracle:
   **`optimize_preserves_of_check'`: `Program::optimize` preserves the observable behaviour at EVERY level on every
   run (program, oracle, environment) for which `optimizeCheck` returns `true`**; `optimize_onceOk_of_check'`: the
   `once` marks of the result are justified.  `optimize_preserves_of_prevAnalSound'` is the same with the semantic
-  hypothesis.  An instance is checked by `decide +kernel` at the end of this file.
+  hypothesis.  An instance is checked by `decide +kernel` at the end of this file.  The test is also available from
+  the light module `Hpbf/OptCheck.lean` (`optimize_preserves_of_check_light'`; `OptCheck.checkReport` for drivers).
 NOT proved: `PrevAnalSound` for the pipeline itself (that every recorded analysis is sound for the dead-store-
 eliminated program it is used on).  It is a hypothesis about the SEMANTICS of the input program, not about the
 optimizer's internals; when it fails the theorems are silent (this can happen without an optimizer defect: a cell
@@ -36,7 +37,7 @@ that a loop restores to a known constant is not recorded as clobbered, and dead 
 restoring store when the cell is dead at the loop end).  No new optimizer defect was found by these proofs.
 The older statements with a `ReadsFact` hypothesis (`analSound_after_round1'`, `round1_dse_preserves'`) are kept.
 -/
-import Hpbf.Proofs.OptRbRounds3
+import Hpbf.Proofs.OptRbCheckEq
 
 namespace Hpbf
 namespace OptProof
@@ -235,6 +236,22 @@ theorem optimize_preserves_of_prevAnalSound' (hw : 0 < w) {env : Env}
     (h : Opt.optimize b level orders = .ok b') : BehEq b b' env :=
   optimize_preserves_of_prevAnalSound hw hA hcl h
 
+/-- The same test from the LIGHT module `Hpbf/OptCheck.lean` (imports only `Hpbf.Opt`; compile this one for
+sampling): it is the same function. -/
+theorem optimizeCheck_light' : @OptCheck.optimizeCheck w = optimizeCheck := optimizeCheck_light
+
+theorem optimize_preserves_of_check_light' (hw : 0 < w) {env : Env} (N : Nat) {b b' : Block w}
+    (hcl : CanonL b.insts) {level : Nat} {orders : Orders}
+    (h : Opt.optimize b level orders = .ok b') (hc : OptCheck.optimizeCheck N b level orders env = true) :
+    BehEq b b' env :=
+  optimize_preserves_of_check_light hw N hcl h hc
+
+theorem optimize_onceOk_of_check_light' (hw : 0 < w) {env : Env} (N : Nat) {b b' : Block w}
+    (hcl : CanonL b.insts) {level : Nat} (hl : level ≠ 0) {orders : Orders}
+    (h : Opt.optimize b level orders = .ok b') (hc : OptCheck.optimizeCheck N b level orders env = true) :
+    C02Emit.OnceOk b' env :=
+  optimize_onceOk_of_check_light hw N hcl hl h hc
+
 /-! ### an instance: multiplication `,>,<[>[>+>+<<-]>>[<<+>>-]<<<-]>>.` at level 3 -/
 
 namespace RoundsEx
@@ -289,3 +306,6 @@ end Hpbf
 #print axioms Hpbf.OptProof.optimize_preserves_of_check'
 #print axioms Hpbf.OptProof.optimize_onceOk_of_check'
 #print axioms Hpbf.OptProof.optimize_preserves_of_prevAnalSound'
+#print axioms Hpbf.OptProof.optimizeCheck_light'
+#print axioms Hpbf.OptProof.optimize_preserves_of_check_light'
+#print axioms Hpbf.OptProof.optimize_onceOk_of_check_light'
